@@ -328,8 +328,236 @@ def validate_graph(g, aut, c, z3):
     return problems, q, len(nodes), g.number_of_edges()
 
 
+# ------------------------------------------------------------------ enumerate_state_machine
+
+SM_DECLS = [dict(a='bool', n=(0, 2)), dict(a='bool', n=(-2, 1)), dict(n=(0, 3), m=(-1, 1)),
+            dict(a='bool', b='bool', n=(-3, -1))]
+
+
+def build_machine(seed):
+    """Seeded (init, action) over Booleans and small integers: guarded commands with assignments, ranges,
+    stuttering and unconstrained next values. Returns (aut, init string, action string)."""
+    import omega.symbolic.temporal as trl
+    from vlib import sem
+    from vlib.props import c07
+    rnd = random.Random(seed * 97 + 5)
+    decl = SM_DECLS[seed % len(SM_DECLS)]
+    aut = trl.Automaton()
+    aut.declare_variables(**decl)
+
+    def conj(ts):
+        r = ts[0]
+        for t_ in ts[1:]:
+            r = ('bin', 'and', r, t_)
+        return r
+    init_t = c07.gen_pred(rnd, decl, rnd.choice([1, 2]))
+    cmds = []
+    for _ in range(rnd.randint(1, 3)):
+        parts = [c07.gen_pred(rnd, decl, 1)]
+        for k, v in decl.items():
+            r = rnd.random()
+            if v == 'bool':
+                if r < 0.4:
+                    parts.append(('bin', 'equiv', ('bvar', k, True), c07.gen_pred(rnd, decl, 0)))
+                elif r < 0.75:
+                    parts.append(('bin', 'equiv', ('bvar', k, True), ('bvar', k, False)))
+            else:
+                if r < 0.35:
+                    parts.append(('cmp', '=', ('var', k, True),
+                                  ('arith', rnd.choice(['+', '-']), ('var', k, False), ('num', rnd.randint(0, 2)))))
+                elif r < 0.55:
+                    lo = rnd.randint(v[0] - 1, v[1])
+                    parts.append(('in', ('var', k, True), lo, lo + rnd.randint(0, 2)))
+                elif r < 0.8:
+                    parts.append(('cmp', '=', ('var', k, True), ('var', k, False)))
+        cmds.append(conj(parts))
+    act_t = cmds[0]
+    for c_ in cmds[1:]:
+        act_t = ('bin', 'or', act_t, c_)
+    return aut, sem.to_str(init_t), sem.to_str(act_t)
+
+
+def _sm_enumerate(aut, init_s, act_s):
+    import omega.games.enumeration as enum
+    init, action = aut.add_expr(init_s), aut.add_expr(act_s)
+    if init == aut.false or action == aut.false:
+        return None, init, action
+    with contextlib.redirect_stdout(io.StringIO()):
+        g = enum.enumerate_state_machine(init, action, aut)
+    return g, init, action
+
+
+def check_state_machines(seeds):
+    """`enumeration.enumerate_state_machine(init, action, aut)`: the graph is the reachable part of the action.
+
+    Solver obligations over the exported BDDs: every valuation satisfying Init is a node; per node, no successor
+    allowed by Action is missing from its out-edges (all next valuations symbolic); each edge satisfies Action;
+    concrete: nodes are distinct valuations of the variables in the supports and reachable from initial nodes."""
+    import z3
+    import omega.symbolic.prime as prm
+    from vlib import bdd2smt, link
+    out = []
+    for seed in seeds:
+        aut, init_s, act_s = build_machine(seed)
+        name = f'state machine #{seed}'
+        sample = dict(seed=seed, declarations=SM_DECLS[seed % len(SM_DECLS)], init=init_s, action=act_s)
+        t1 = time.time()
+        try:
+            g, init, action = _sm_enumerate(aut, init_s, act_s)
+        except Exception as e:  # noqa
+            import traceback
+            where = traceback.extract_tb(e.__traceback__)[-1]
+            out.append(core.res(name, 'violation', sample=sample, nontrivial=True, functions=FUNCS,
+                                signature=f'state-machine:{type(e).__name__}@{where.name}',
+                                detail=f'enumerate_state_machine raised {type(e).__name__} at {where.name}:{where.lineno}: {str(e)[:100]}',
+                                cex=dict(kind='sm', seed=seed)))
+            continue
+        if g is None:
+            out.append(core.res(name, 'holds', sample=dict(sample, skipped='init or action is FALSE (asserted precondition)'),
+                                nontrivial=False, functions=FUNCS))
+            continue
+        exp = bdd2smt.Exporter(aut.bdd)
+        bits = exp.bits
+        t = aut.vars
+        vrs = sorted(prm.vars_in_support(init, aut) | prm.vars_in_support(action, aut))
+        I, A = exp.export(init), exp.export(action)
+        q = {}
+        problems = []
+
+        def sub(term, vals, primed=False):
+            s_ = []
+            for k, v in vals.items():
+                for b, val in link.value_to_bits(k, t[k], v, primed).items():
+                    s_.append((bits(b), z3.BoolVal(val)))
+            return z3.substitute(term, *s_) if s_ else term
+
+        def state_is(vals, primed=False):
+            eq = []
+            for k in vrs:
+                for b, val in link.value_to_bits(k, t[k], vals[k], primed).items():
+                    eq.append(bits(b) == z3.BoolVal(val))
+            return z3.And(eq) if eq else z3.BoolVal(True)
+
+        def chk(fs):
+            sol = z3.Solver()
+            sol.set('timeout', SOLVER_MS)
+            sol.add(*fs)
+            r = str(sol.check())
+            q[r] = q.get(r, 0) + 1
+            return r, (sol.model() if r == 'sat' else None)
+        nodes = {n: dict(d) for n, d in g.nodes(data=True)}
+        seen = set()
+        for n, d in nodes.items():
+            key = tuple(sorted(d.items()))
+            if sorted(d) != vrs:
+                problems.append(f'node {n} is labelled with {sorted(d)} instead of the variables in the supports {vrs}')
+            if key in seen:
+                problems.append(f'two nodes carry the valuation {d}')
+            seen.add(key)
+        if not problems:
+            r, m = chk([I] + [z3.Not(state_is(d)) for d in nodes.values()])
+            if r == 'sat':
+                problems.append(f'initial valuation {link.model_values(m, {k: t[k] for k in vrs}, bits)} is not a node')
+            elif r != 'unsat':
+                problems.append('unknown')
+        initial = set()
+        for n, d in nodes.items():
+            if problems:
+                break
+            if z3.is_true(z3.simplify(sub(I, d))):
+                initial.add(n)
+            An = sub(A, d)
+            succ = [nodes[m_] for m_ in g.successors(n)]
+            for sd in succ:
+                if not z3.is_true(z3.simplify(sub(An, sd, primed=True))):
+                    rr, _ = chk([z3.Not(sub(An, sd, primed=True))])
+                    if rr != 'unsat':
+                        problems.append(f'edge {d} -> {sd} is not a step of the action')
+                        break
+            r, m = chk([An] + [z3.Not(state_is(sd, primed=True)) for sd in succ])
+            if r == 'sat':
+                nxt = link.model_values(m, {k: t[k] for k in vrs}, bits, primed=True)
+                problems.append(f'node {d}: the step to {nxt} is allowed by the action but is not an edge')
+            elif r != 'unsat':
+                problems.append('unknown')
+        if not problems:
+            reach, todo = set(initial), list(initial)
+            while todo:
+                u = todo.pop()
+                for v in g.successors(u):
+                    if v not in reach:
+                        reach.add(v)
+                        todo.append(v)
+            if reach != set(nodes):
+                problems.append(f'{len(set(nodes) - reach)} node(s) are not reachable from the initial valuations')
+        dt = time.time() - t1
+        extra = dict(states=len(nodes), transitions=g.number_of_edges())
+        sample.update(nodes=len(nodes), edges=g.number_of_edges(), variables=vrs)
+        if not problems:
+            out.append(core.res(name, 'holds', queries=q, solver_s=dt, sample=sample, nontrivial=g.number_of_edges() >= 2,
+                                functions=FUNCS, extra=extra))
+        elif problems[0] == 'unknown':
+            out.append(core.res(name, 'inconclusive', queries=q, solver_s=dt, sample=sample, detail='solver unknown'))
+        else:
+            ok, why = replay(dict(cex=dict(kind='sm', seed=seed)))
+            out.append(core.res(name, 'violation' if ok else 'inconclusive', queries=q, solver_s=dt, sample=sample, nontrivial=True,
+                                functions=FUNCS, signature='state-machine:' + problems[0].split(' ')[0],
+                                detail=f'init = {init_s}; action = {act_s}: {problems[0]}; replay: {why}',
+                                cex=dict(kind='sm', seed=seed), extra=extra))
+    return out
+
+
+def replay_state_machine(seed):
+    """No z3: the reachable graph of the action by brute force over all valuations, with Context.let only."""
+    import omega.symbolic.prime as prm
+    from vlib.props import c07
+    aut, init_s, act_s = build_machine(seed)
+    try:
+        g, init, action = _sm_enumerate(aut, init_s, act_s)
+    except Exception as e:  # noqa
+        return True, f'enumerate_state_machine raised {type(e).__name__}: {e}'
+    if g is None:
+        return False, 'precondition not met'
+    vrs = sorted(prm.vars_in_support(init, aut) | prm.vars_in_support(action, aut))
+    doms = [c07._vals(aut.vars[k]) for k in vrs]
+    allv = [dict(zip(vrs, v)) for v in itertools.product(*doms)]
+
+    def tt(u, cur, nxt=None):
+        d = dict(cur)
+        if nxt is not None:
+            d.update({k + "'": v for k, v in nxt.items()})
+        sup = aut.support(u)
+        d = {k: v for k, v in d.items() if k in sup}
+        return (aut.let(d, u) if d else u) == aut.true
+    key = lambda d: tuple(sorted(d.items()))
+    want_nodes = {key(d) for d in allv if tt(init, d)}
+    todo = [dict(k) for k in want_nodes]
+    want_edges = set()
+    while todo:
+        d = todo.pop()
+        for e in allv:
+            if tt(action, d, e):
+                want_edges.add((key(d), key(e)))
+                if key(e) not in want_nodes:
+                    want_nodes.add(key(e))
+                    todo.append(e)
+    labels = {n: dict(dd) for n, dd in g.nodes(data=True)}
+    got_nodes = [key(dd) for dd in labels.values()]
+    got_edges = {(key(labels[u]), key(labels[v])) for u, v in g.edges()}
+    if len(got_nodes) != len(set(got_nodes)) or set(got_nodes) != want_nodes:
+        return True, (f'nodes differ from the reachable valuations: {len(got_nodes)} nodes, {len(want_nodes)} reachable; '
+                      f'missing {[dict(k) for k in list(want_nodes - set(got_nodes))[:2]]}, '
+                      f'extra {[dict(k) for k in list(set(got_nodes) - want_nodes)[:2]]}')
+    if got_edges != want_edges:
+        return True, (f'edges differ: missing {[(dict(a), dict(b)) for a, b in list(want_edges - got_edges)[:1]]}, '
+                      f'extra {[(dict(a), dict(b)) for a, b in list(got_edges - want_edges)[:1]]}')
+    return False, 'graph equals the reachable part of the action'
+
+
 def replay(payload):
     """Brute-force validation of the graph with Context.let only (no z3)."""
+    if payload['cex'].get('kind') == 'sm':
+        return replay_state_machine(payload['cex']['seed'])
     import omega.games.enumeration as enum
     from vlib import link
     c = make_case(payload['cex']['seed'])
@@ -417,6 +645,12 @@ def run(tier, seed, t0, only=None):
     for i in range(0, n // 5, 10):
         tasks.append(dict(mod='vlib.props.c12', fn='check_cases', kw=dict(seeds=seeds[i:i + 10]), backend='autoref',
                           timeout=1800, name=f'autoref:cases[{i}]'))
+    nsm = 200 if tier == 'quick' else 3000
+    sms = [seed * 50000 + i for i in range(nsm)]
+    for i in range(0, nsm, 20):
+        for be in (('cudd', 'autoref') if i % 100 == 0 else ('cudd',)):
+            tasks.append(dict(mod='vlib.props.c12', fn='check_state_machines', kw=dict(seeds=sms[i:i + 20]), backend=be,
+                              timeout=1800, name=f'{be}:state-machines[{i}]'))
     if only:
         tasks = [t for t in tasks if only in t['name']]
     results = core.run_tasks(tasks)
